@@ -88,6 +88,14 @@ def run_job(job):
         # ---- counterexamples: refine into a replayable model, replay on the real stack
         for c in eng.cex:
             tried, reproduced = [], False
+            if c.get("hint"):
+                # a witness of the regular over-approximation for the only string involved: try it first
+                inputs = {n: ("" if srt == "str" else 0 if srt == "int" else False) for n, srt in eng.inputs.items()}
+                inputs.update(c["hint"])
+                out, labels, _ = _concrete_run(hm, job, inputs, job.get("known_active", ()))
+                if labels:
+                    res["violations"].append(dict(label=c["label"], observed=labels, inputs=inputs, outcome=str(out)))
+                    break
             for _ in range(4):
                 inputs = eng.concretize(c["pc"], c["neg"], c["cf_apps"], block=tried)
                 if inputs is None:
